@@ -753,7 +753,9 @@ func c18RacePass(c *engine.Ctx) {
 			}
 			cmd := exec.Command(bin, "racepass", n, rounds)
 			cmd.Env = append(os.Environ(), "GOMAXPROCS="+p, "GORACE=halt_on_error=1 exitcode=66")
+			engine.WaitingForChild(true)
 			out, err := cmd.CombinedOutput()
+			engine.WaitingForChild(false)
 			c.Count("race_pass_runs", 1)
 			code := 0
 			if err != nil {
@@ -936,7 +938,9 @@ func c18FirstUse(oi int) (footprint, bool) {
 	}
 	cmd := exec.Command(exe, "c18first", fmt.Sprint(oi))
 	cmd.Env = append(os.Environ(), "GOMAXPROCS=1")
+	engine.WaitingForChild(true)
 	out, err := cmd.Output()
+	engine.WaitingForChild(false)
 	if err != nil {
 		return footprint{}, false
 	}
